@@ -783,6 +783,14 @@ func (g *graph) step(m mut, o op) (alts []*graph, mayErr bool) {
 			break
 		}
 		alts = append(alts, g.clone()) // no own definition: nothing to remove
+		if cs := g.inheritedCands(p, kind, o.arg); 0 < len(cs) {
+			// slip's reading (asserted for unintern, which shares Package.Remove
+			// with makunbound, by its own test TestUninternInherited): the
+			// inherited name is hidden in this package only
+			a := g.clone()
+			a.tab(p, kind)[o.arg] = &def{val: unboundVal}
+			alts = append(alts, a)
+		}
 		for _, c := range g.inheritedCands(p, kind, o.arg) {
 			// Common Lisp reading: the inherited symbol itself becomes unbound
 			a := g.clone()
